@@ -51,7 +51,7 @@ DIRS = ["src", "asm", "lib", "build", "{version}", "{compiler}", "a{version}b", 
         "{region}_{debug}", "x{debug}", "{version}x", "o.d", "sub", "se\u00f1al_{version}"]
 FILES = ["main.o", "util.o", "data.o", "rom_header.o", "libc.a", "libultra.a", "{version}.o", "f{region}.o",
          "{version}_{compiler}.o", "weird", "x.y.o", "lib{region}.a", "noext", "dir/inner.o", "{debug}{debug}.o",
-         "\u00e9t\u00e9_{region}.o"]
+         "\u00e9t\u00e9_{region}.o", "blob.bin"]
 SYMS = ["entrypoint", "osMemSize", "__start", "gCounter", "_binary_start", "func_80001000"]
 CLASS_NAMES = ["overlays", "battle", "menus", "extra"]
 
